@@ -134,7 +134,7 @@ func main() {
 		return
 	}
 	rng := r.Rng("c01")
-	cases := gen.EdFamilies(rng, r.Pick(12, 240), r.Pick(150, 0))
+	cases := gen.EdFamilies(rng, r.Pick(45, 400), r.Pick(400, 0))
 	r.Observe("cases", len(cases))
 	r.Parallel(len(cases), func(i int) { runCase(r, cases[i]) })
 	// every rejection rule and acceptance must have been observed, otherwise the run proves little
